@@ -315,9 +315,11 @@ inductive ReachGH (own : String) : State → Bool → Prop where
     `events`    — watch events of the object not yet taken by the worker. Every stored new version is one
                   (foreign writes, the deletion mark, the operator's own accepted writes); a restarted
                   operator gets one from the listing; a request that changes nothing brings none.
-    `sleeping`  — the last cycle returned delays and its patch was EMPTY: the worker sleeps in
-                  `application.apply` and will touch the object (label `touch` → one more event).
-                  With a non-empty patch the sleep is skipped ("the patch's event will wake us").
+    `sleeping`  — the last cycle returned delays and its patch was empty OR CHANGED NOTHING (the returned
+                  version is the version of the body the cycle worked on; repair 7224f57): the worker
+                  sleeps in `application.apply` and will touch the object (label `touch` → one more event).
+                  After a patch that changed the object — or whose outcome is unknown (HTTP 422/404: no
+                  version came back) — the sleep is skipped ("the patch's event will wake us").
     `cyc…`      — what `apply` knows about the cycle in flight.
   `decide e` takes one event; it may find the state inconsistent (`e.consistent = false`, the early
   `return`) only while a further event is still queued: the worker waits for the version of its own last
@@ -337,8 +339,14 @@ inductive LLabel where
   | touch               -- the sleep ends undisturbed: `patch_and_check(touch)` — a write, hence an event
   deriving DecidableEq, Repr
 
-/-- `application.apply`: sleep iff there are delays and the patch was empty (no dict content, no fns). -/
-def sleepsAfter (delays merge : Bool) (fns : List Fn) : Bool := delays && !merge && fns.isEmpty
+/-- `application.apply`: `changed = bool(patch) and (resource_version is None or resource_version != seen_version)`;
+sleep (then touch) iff there are delays and not `changed`. -/
+def sleepsAfter (delays changed : Bool) : Bool := delays && !changed
+
+/-- `changed` for a cycle whose JSON patch was not written (no ops, or HTTP 422): with dict content the merge
+patch's response decides; without it a non-empty patch has fns only and no version came back. -/
+def changedUnwritten (cycMerge cycChanges : Bool) (fns : List Fn) : Bool :=
+  if cycMerge then cycChanges else !fns.isEmpty
 
 def lstep (own : String) (s : LState) : LLabel → Option LState
   | .touch =>
@@ -358,7 +366,8 @@ def lstep (own : String) (s : LState) : LLabel → Option LState
         (step own s.base l).map fun b =>
           if b.rv != s.base.rv then { s with base := b, events := s.events + 1 }     -- the accepted write is an event
           else { s with base := b,
-                        sleeping := sleepsAfter s.cycDelays s.cycMerge (match s.base.pending with | some p => p.fns | none => []) }
+                        sleeping := sleepsAfter s.cycDelays
+                          (changedUnwritten s.cycMerge s.cycChanges (match s.base.pending with | some p => p.fns | none => [])) }
     | .restart =>
         (step own s.base l).map fun b =>
           { base := b, events := 1, sleeping := false, cycDelays := false, cycMerge := false, cycChanges := false }
@@ -373,12 +382,12 @@ def lrun (own : String) (s : LState) : List LLabel → Option LState
 def LInit (s : LState) : Prop :=
   Init s.base ∧ s.events = 1 ∧ s.sleeping = false ∧ s.cycDelays = false ∧ s.cycMerge = false ∧ s.cycChanges = false
 
-/-- What the liveness theorems assume of the environment (everything else is free):
-no HTTP 422 is injected without a real concurrent write, and the dict content of a patch, if any,
-changes the object (the excluded case is the open finding F7: a no-op patch with delays loses the wake-up). -/
+/-- What the liveness theorems assume of the environment (everything else is free): no HTTP 422 is injected
+without a real concurrent write. (Kubernetes answers 422 to the `test` op only when the version has moved,
+i.e. after a write, whose event is the wake-up; an injected one leaves a non-empty patch with unknown
+outcome — the sleep is skipped — and no event. Still needed after 7224f57.) -/
 def LGuard : LLabel → Prop
   | .base (.jsonPatch forced) => forced = false
-  | .base (.decide e) => e.merge = true → e.mergeChanges = true
   | _ => True
 
 inductive LReach (own : String) : LState → Prop where
